@@ -13,6 +13,7 @@ import subprocess
 import tempfile
 import time
 import os
+import sys
 
 import z3
 
@@ -397,12 +398,15 @@ def _probe_in_child(s, timeout_ms):
 
 def check_ground(ground, timeout_ms=10000):
     s = z3.Solver()
-    s.set("timeout", timeout_ms)
-    s.set("rlimit", int(timeout_ms) * 3000)      # z3's wall-clock timeout is not honoured in every phase
+    # the verdict is bounded by a *resource* limit (load independent); the wall-clock limit is three
+    # times what that limit takes on an idle machine and only a safety net
+    wall_ms = 3 * int(timeout_ms)
+    s.set("timeout", wall_ms)
+    s.set("rlimit", int(timeout_ms) * 9000)      # z3's wall-clock timeout is not honoured in every phase
     s.add(*ground)
     t = time.time()
     if len(ground) > 400:
-        probe = _probe_in_child(s, timeout_ms)
+        probe = _probe_in_child(s, wall_ms)
         if probe is None:
             return Result("unknown", None, len(ground), time.time() - t, reason="hard deadline (child killed)")
         if probe == "unknown":
@@ -541,6 +545,9 @@ def prove(snapshot, goal, timeout_ms=10000, rounds=3, use_cvc5=False, validate=T
             break
     r = last
     r.time_s += t_em
+    if os.environ.get("PYVC_DEBUG_PROVE"):
+        sys.stderr.write(f"[prove] fallback status={r.status} reason={r.reason} rounds={getattr(r, 'rounds', None)} "
+                         f"ground={r.n_ground} t={r.time_s:.1f}s ematch_t={t_em:.1f}s\n")
     if r.status == "unknown" and use_cvc5:
         r2 = check_cvc5(ground, timeout_s=max(10, timeout_ms // 1000))
         if r2.status == "unsat":
